@@ -36,7 +36,7 @@ class C06(IRProp):
     id = "C06"
     prop_file = "Properties/C06.v"
     tag = "c06"
-    genopts = dict(with_aux=False, nfun_max=3, whole_del=0.15)
+    genopts = dict(with_aux=False, nfun_max=3, whole_del=0.15, orphan_code=0.25)
     trusted_base = IRProp.base_trusted
     assumptions = ["register_insert_function is not exercised by the generator (the model has no function insertion); that clause is left to the suite"]
     level_rule = ("random x86-64 modules with 0-3 functions of 1-3 blocks plus blocks outside any function and data blocks; insertions, replacements, "
